@@ -1416,6 +1416,17 @@ def gen_C16(rng, tier, dist):
             out.append(pcase(cfg_str(fast=fast, audio="aac-lc"), ["wv %s %s 1" % (f64bits(0.0), hx(K)), "wa %s %s" % (f64bits(0.0), hx(A)),
                                                                    "wa %s %s" % (f64bits(t), hx(A)), "fins"]))
             dist["total_duration_boundary"] += 2
+        # total duration around 2^32 ticks for REORDERED video (presentation span != decode span: the last
+        # decode-order frame is presented before it is decoded, the first one after): the declared duration
+        # is the sum of the sample durations, whatever the presentation times are
+        for k in (-1, 0, 1, 2, 1499, 1500, 1501, 3000, 3001, 6000, 6001, 9001):
+            G = 2 ** 32 - 1 + k - 9000
+            dts = [0, G, G + 3000, G + 6000]
+            for pts in ([3000, G + 9000, G + 3000, G + 4500], [0, G + 6000, G + 3000, G + 4500], [6000, G + 12000, G + 6000, G + 9000]):
+                ops = ["wvd %s %s %s %d" % (f64bits(p / 90000.0), f64bits(d / 90000.0), hx(K if i == 0 else D), 1 if i == 0 else 0)
+                       for i, (p, d) in enumerate(zip(pts, dts))]
+                out.append(pcase(cfg_str(fast=fast), ops + ["fins"]))
+                dist["total_duration_boundary_reordered"] += 1
         # inter-frame gap around 2^32
         for t in near(T):
             out.append(pcase(cfg_str(fast=fast), ["wv %s %s 1" % (f64bits(0.0), hx(K)), "wv %s %s 0" % (f64bits(t), hx(D)), "fins"]))
